@@ -30,7 +30,7 @@ func (c09) Assumptions() []string {
 }
 func (c09) Floors(tier string, c map[string]int64) []string {
 	var out []string
-	for _, k := range []string{"holder/SoftCollection", "holder/WrapperCollection", "holder/Resources-soft", "holder/Resources-wrapped", "with_filter", "with_ids", "rules_with_id", "rules_without_id", "size_zero", "huge_page_size", "ties_seen", "nil_keys_seen", "pages_nonempty"} {
+	for _, k := range []string{"holder/SoftCollection", "holder/WrapperCollection", "holder/Resources-soft", "holder/Resources-wrapped", "holder/Range-result", "with_filter", "with_ids", "rules_with_id", "rules_without_id", "size_zero", "huge_page_size", "ties_seen", "nil_keys_seen", "pages_nonempty"} {
 		if c[k] == 0 {
 			out = append(out, "never observed: "+k)
 		}
@@ -78,6 +78,15 @@ func (m c09) buildCollection(s *c09scn, order []int) (jsonapi.Collection, *Panic
 				wc.Add(buildResource(&wt, s.Res[i]))
 			}
 			col = wc
+		case "Range-result":
+			// the collection Range returns (everything, unsorted rules) used as the input of the next Range
+			rt := t
+			rt.Wrapped = len(order)%2 == 1
+			rs := &jsonapi.Resources{}
+			for _, i := range order {
+				rs.Add(buildResource(&rt, s.Res[i]))
+			}
+			col = jsonapi.Range(rs, nil, nil, []string{}, ^uint(0)>>1, 0)
 		default:
 			rt := t
 			rt.Wrapped = s.Holder == "Resources-wrapped"
@@ -156,7 +165,7 @@ func (m c09) Case(c *Ctx, r *RNG) {
 		s.Type.Attrs = append(s.Type.Attrs, AttrSpec{Name: names[i], Kind: allKinds[r.Intn(len(allKinds))], Null: r.Bool()})
 	}
 	s.Type.Rels = []RelSpec{{Name: "one", ToOne: true, ToType: "x"}, {Name: "many", ToType: "x"}}
-	s.Holder = []string{"SoftCollection", "WrapperCollection", "Resources-soft", "Resources-wrapped"}[r.Intn(4)]
+	s.Holder = []string{"SoftCollection", "WrapperCollection", "Resources-soft", "Resources-wrapped", "Range-result"}[r.Intn(5)]
 	n := r.Range(0, maxN)
 	if r.Chance(1, 3) {
 		n = r.Range(0, 5)
